@@ -320,14 +320,18 @@ class CollisionMonitor:
             else:
                 ev = ('none',)
             if ev == ('born',):
-                ok = a_state in ('ESTABLISHED', 'INITIAL') or a_state in TIMER_FROM_ESTABLISHED
-                allowed = {'ESTABLISHED'}
+                # a successor inherits the events queued at its predecessor and serves them as soon as it is idle
+                inherited = QUEUED_STARTS if any(x['pending'] for x in before.values()) else set()
+                ok = a_state in ('ESTABLISHED', 'INITIAL') or a_state in TIMER_FROM_ESTABLISHED or a_state in inherited
+                allowed = {'ESTABLISHED'} | inherited
             else:
                 allowed = set(allowed_after(b_state, ev, kind))
                 # timers run at the end of every iteration
                 closure = set(allowed)
                 if 'ESTABLISHED' in allowed:
                     closure |= TIMER_FROM_ESTABLISHED
+                    if b is not None and b['pending']:
+                        closure |= QUEUED_STARTS          # the loop serves queued events of an idle IKE_SA
                 if b_state in REQ_SENT or any(x in REQ_SENT for x in allowed):
                     closure |= {'DELETED'} if (b is not None and b['retransmissions'] >= 4) else set()
                 ok = a_state in closure
